@@ -5,3 +5,5 @@ from contracts import c_ddm as DD
 def build(run):
     reg = {"get_derivative_dynmat_at_q": DD.block_contract(), "get_derivative_nac": DD.nac_contract()}
     run.verify_c([DD.hermitian_contract()], registry=reg)
+    DD.nac_scalar_lemmas(run)
+    run.verify_c([DD.derivative_block_contract()])
